@@ -6,12 +6,13 @@ from vlib import ref_fs, ref_cfg, gen_cfg
 
 ID = "C18"
 RULE = ("two kinds of cases. (unify) an ordered pair of consistently typed feature structures of depth <=3 (atomic "
-        "features with values from one domain or unspecified, complex features with fixed sub-signatures, re-entrancy "
+        "features with values from one domain - strings, or the falsy / mixed values 0, '', 1 - or unspecified, complex features with fixed sub-signatures, re-entrancy "
         "by node sharing; built through the API and, when re-entrancy-free, also through from_text): a.unify(b) must "
         "succeed exactly when the reference union-find graph unification finds no clash; afterwards every reference "
         "path exists in a with the same value, the partition of paths into shared nodes is the same and there is no "
         "extra path; the swapped order gives the same observation; a clash raises exactly "
-        "FeatureStructuresNotCompatibleException. (fcfg) a feature grammar in text form (<=3 non-terminals with "
+        "FeatureStructuresNotCompatibleException. (fcfg) a feature grammar, in text form or built through the constructors "
+        "with the two values replaced by (0, 1), ('', 'x') or (1, '1') (<=3 non-terminals with "
         "signatures within {n, p}, one value domain {u, v}, constants / variables / omitted features, epsilon "
         "productions, left recursion, same-skeleton productions with different features, one-per-line and '|' forms): "
         "contains(w) for all words <=4 must equal membership in the ground instantiation (least fixpoint); "
@@ -26,9 +27,11 @@ WATCHDOG = 30
 
 
 def strategy(tier, flags):
-    unify = st.fixed_dictionaries({"kind": st.just("unify"), "a": ref_fs.fs_desc(), "b": ref_fs.fs_desc()})
+    unify = st.sampled_from([False, False, True]).flatmap(lambda fz: st.fixed_dictionaries(
+        {"kind": st.just("unify"), "a": ref_fs.fs_desc(falsy=fz), "b": ref_fs.fs_desc(falsy=fz)}))
     fcfg = st.fixed_dictionaries({"kind": st.just("fcfg"), "f": ref_fs.fcfg_desc(),
-                                  "alternatives": st.booleans()})
+                                  "alternatives": st.booleans(),
+                                  "how": st.sampled_from(["text", "text", "falsy", "empty", "int_str"])})
     plain = st.fixed_dictionaries({"kind": st.just("fcfg"), "f": ref_fs.fcfg_desc(features=False),
                                    "alternatives": st.booleans()})
     return st.one_of(unify, fcfg, fcfg, plain)
@@ -98,8 +101,12 @@ def run_fcfg(case):
     d = case["f"]
     G = ref_fs.ground(d)
     text = ref_fs.fcfg_text(d, alternatives=case.get("alternatives", False))
+    how = case.get("how", "text")
     with guard(failures, "build"):
-        g = FCFG.from_text(text)
+        if how == "text":
+            g = FCFG.from_text(text)
+        else:
+            g = ref_fs.build_lib_fcfg_api(d, ref_fs.VALUE_MAPS[how])
     if failures:
         return {"failures": failures}
     lang = G.language_upto(4)
@@ -120,7 +127,7 @@ def run_fcfg(case):
                 if g.contains(list(w)) != c.contains(list(w)):
                     failures.append(fail("feature_free_vs_cfg", "differs", {"word": w, "text": text}))
                     break
-    labels = ["fcfg", "featured" if featured else "feature_free"]
+    labels = ["fcfg", "featured" if featured else "feature_free", "how:" + how]
     if any(not body for _h, _hf, body in d["prods"]):
         labels.append("epsilon_production")
     if any(body and body[0][0] == "V" and body[0][1] == h for h, _hf, body in d["prods"]):
